@@ -48,6 +48,7 @@ impl Syllable {
         let mut lc = 1 - seg_len as i8;
 
         while seg_len > 1 {
+            #[cfg(feature = "verif")] crate::verif::tick(300);
             self.segments.remove(pos+1);
             // TODO: we should really do this instead of removing, but it brakes inserting after subbing
             // self.segments[pos+1] = *seg;
@@ -70,6 +71,7 @@ impl Syllable {
         let mut i = 0;
         
         while i < self.segments.len() {
+            #[cfg(feature = "verif")] crate::verif::tick(301);
             let index = i;
             let len = self.get_seg_length_at(i);
             segments.nth(len);
@@ -99,6 +101,7 @@ impl Syllable {
         let mut s_i = pos + 1;
         let mut len = 1;
         while s_i < self.segments.len() && self.segments[pos] == self.segments[s_i] {
+            #[cfg(feature = "verif")] crate::verif::tick(302);
             len +=1; s_i += 1;
         }
         len
@@ -110,6 +113,7 @@ impl Syllable {
         let mut pos = start_pos;
         let mut seg_len = self.get_seg_length_at(pos);
         while seg_len > 0 {
+            #[cfg(feature = "verif")] crate::verif::tick(303);
             let seg = self.segments.get_mut(pos).expect("position is in bounds");
             seg.apply_seg_mods(alphas, mods.nodes, mods.feats, err_pos, false)?;
             seg_len -= 1;
@@ -128,12 +132,14 @@ impl Syllable {
             [None, None] => {},
             [None, Some(v)] => if v.as_bool(alphas, err_pos)? {
                 while seg_len < 3 {
+                    #[cfg(feature = "verif")] crate::verif::tick(304);
                     self.segments.insert(pos, seg);
                     seg_len +=1;
                     len_change +=1;
                 }
             } else {
                 while seg_len > 2 {
+                    #[cfg(feature = "verif")] crate::verif::tick(305);
                     self.segments.remove(pos);
                     seg_len -=1;
                     len_change -=1;
@@ -141,12 +147,14 @@ impl Syllable {
             },
             [Some(long), None] => if long.as_bool(alphas, err_pos)? {
                 while seg_len < 2 {
+                    #[cfg(feature = "verif")] crate::verif::tick(306);
                     self.segments.insert(pos, seg);
                     seg_len += 1;
                     len_change +=1;
                 }
             } else {
                 while seg_len > 1 {
+                    #[cfg(feature = "verif")] crate::verif::tick(307);
                     self.segments.remove(pos);
                     seg_len -= 1;
                     len_change -=1;
@@ -160,11 +168,13 @@ impl Syllable {
                 },
                 (true, false) => {
                     while seg_len > 2 {
+                        #[cfg(feature = "verif")] crate::verif::tick(308);
                         self.segments.remove(pos);
                         seg_len -=1;
                         len_change -=1;
                     }
                     while seg_len < 2 {
+                        #[cfg(feature = "verif")] crate::verif::tick(309);
                         self.segments.insert(pos, seg);
                         seg_len += 1;
                         len_change +=1;
